@@ -16,7 +16,7 @@ PROPS = ['Props/C04']
 DISABLED = True
 RULE = ('documents and bundles from the shared history generator (plus CopyFromColumn from formula columns, raw '
         'ApplyDocActions, ReplaceTableData, bundles with a failing last action); for each bundle every instrumented '
-        'sub-step boundary is a crash point (thorough: all; quick: a stratified sample): the document is rebuilt '
+        'sub-step boundary is a crash point (thorough: all of them for bundles with <= 160 sub-steps, else a stratified sample of 160; quick: a stratified sample of 6): the document is rebuilt '
         'identically, the exception injected there, then all tables, engine.schema, build_schema(metadata) and the '
         'ActionGroup of a following Calculate are compared with the state before the bundle; a case is non-trivial '
         'when the fault struck after at least one mutation (cell set / schema rebuild / undo append) of the bundle')
@@ -270,8 +270,13 @@ def classify(loc, run):
   if 'ReplaceTableData' in loc['done_docs'] or doc == 'ReplaceTableData':
     return 'ReplaceTableData-undo-clears-formula-columns'
   pend = run.pending | set(loc['calc_cells'])
-  if pend and cells and all((t, c) in pend for (t, c) in cells if c is not None) and \
-     all(c is not None or any(pt == t for pt, _ in pend) for (t, c) in cells):
+  def is_formula(t, c):
+    return bool((run.before_schema.get(t, {}).get(c) or ('', False))[1])
+  if pend and cells and all((t, c) in pend for (t, c) in run.diff_cells if c is not None) and \
+     all(c is not None or any(pt == t for pt, _ in pend) for (t, c) in run.diff_cells) and \
+     all((t, c) in pend or (c is not None and is_formula(t, c)) or (c is None and any(pt == t for pt, _ in pend))
+         for (t, c) in run.emitted_cells):
+    # (the following Calculate may also re-emit formula cells that depend on the stale ones)
     # formula cells recomputed inside the bundle (bring_col_up_to_date) or saved into the summary (RemoveColumn of a
     # formula column, doModifyColumn conversions): their deltas sit in out_actions.summary, which rollback drops
     return 'pending-calc-delta-survives-rollback'
@@ -449,11 +454,14 @@ ROLLBACK_TIE_CHECK = (
 # ---------------------------------------------------------------------------------------------------------------
 
 def sample_points(ctx, run, limit):
-  """Crash points to try: all in the thorough tier; in the quick tier a sample stratified by (doc action, point)."""
+  """Crash points to try: all of them when the bundle has at most `limit` (thorough: 160, i.e. every crash point of
+  all but the largest metadata cascades), else a sample stratified by (doc action, point)."""
   pts = [i for (i, name, doc, phase, det) in run.events
          if (phase == 'actions' or doc is not None) and name != 'undo.reappend']
-  if ctx.tier == 'thorough' or len(pts) <= limit:
+  if len(pts) <= limit:
+    ctx.bump('bundles-with-all-crash-points-enumerated')
     return pts
+  ctx.bump('bundles-with-sampled-crash-points')
   groups = collections.OrderedDict()
   for i in pts:
     _i, name, doc, phase, det = run.events[i]
@@ -594,8 +602,8 @@ def replay(ctx, w):
 
 def gen_runs(ctx):
   """Yields (LoggedDoc before the bundle, bundle) for generated histories."""
-  n_hist = ctx.n(3, 50)
-  nb = ctx.n(4, 8)
+  n_hist = ctx.n(3, 10)
+  nb = ctx.n(4, 5)
   for h in range(n_hist):
     gen = Gen(ctx.rng)
     ld = LoggedDoc()
@@ -652,7 +660,7 @@ def search(ctx):
     for ld, bundle in gen_runs(ctx):
       correspond_runs.append((copy.deepcopy(ld.log), copy.deepcopy(bundle), run_bundle(LoggedDoc(ld.log), bundle)))
     runs = correspond_runs
-  per_bundle = ctx.n(6, 10 ** 9)
+  per_bundle = ctx.n(6, 160)
   seen_kinds = collections.Counter()
   for log, bundle, base in runs:
     base.plan = tie_plan(base) if base.raised is None else None
